@@ -43,6 +43,9 @@ func hasGemPre(s string) bool {
 
 // roundTrip returns the first violated clause or "".
 func roundTrip(sys semver.System, s string) (obs, exp string, inDomain bool, normalised bool) {
+	if sys == semver.Maven && !gen.InMavenDomain(s) {
+		return "", "", false, false
+	}
 	v, err := sys.Parse(s)
 	if err != nil || v.IsWildcard() {
 		return "", "", false, false
@@ -102,6 +105,9 @@ func rtProp(sys semver.System, g *rapid.Generator[string]) func(*rapid.T) {
 }
 
 func sameCanon(sys semver.System, a, b string) (obs string, in bool, hit bool) {
+	if sys == semver.Maven && (!gen.InMavenDomain(a) || !gen.InMavenDomain(b)) {
+		return "", false, false
+	}
 	va, err := sys.Parse(a)
 	if err != nil || va.IsWildcard() {
 		return "", false, false
